@@ -22,6 +22,7 @@ const (
 	FRep                 // residue representative used by the systematic history sweep
 	FGrown               // found by coverage-guided growth on the current tree
 	FFamily              // member of a token family (same word in SQLi and XSS syntactic positions)
+	FPadded              // a fixture/literal padded with benign filler to 0.6-9 kB (crosses length thresholds, keeps its head)
 )
 
 type Corpus struct {
